@@ -250,6 +250,74 @@ def r_init_coverage(rep, prog):
         "children.rest": "huge", "children.last.front": "huge", "children.last.back": "free:0",
         "bitfields.front": "bits:0", "bitfields.back": "bits:1",
     })
+    r_fill_writes(rep, prog)
+
+
+def r_fill_writes(rep, prog):
+    """The primitives the initialisation and recovery rely on really write: Bitfield::fill stores the chosen pattern into every
+    row; Bitfield::set ORs the mask for `true` and ANDs its complement for `false` on every row of the range."""
+    rule = "R-FILL-WRITES"
+    rep.rule(rule, "Bitfield::fill stores all-ones / all-zeros into every row; Bitfield::set applies mask / !mask to every row of the range")
+    fn = "llfree::bitfield::Bitfield::fill"
+    b = lib.need_body(prog, fn)
+    rep.saw(fn)
+    tm = T.Terms(b, prog)
+    loops = loop_info(b)
+    good = False
+    detail = "no loop over self.data"
+    if len(loops) == 1:
+        h, blocks, exits = loops[0]
+        info = iter_loop_header(b, tm, h)
+        ok, why = exits_only_by_exhaustion(b, tm, h, blocks, exits)
+        src = strip_wrappers(info[0][2][0]) if info else ("k",)
+        whole = src[0] == "f" and src[3] == "data" or (src[0] == "*" and T.canon(src) == ("f", ("p", "self"), "data"))
+        stores = [(bi, t) for bi, t in b.calls_to("llfree::atomic::Atom::store") if bi in blocks]
+        if info and ok and len(stores) == 1:
+            sb, st = stores[0]
+            uncond = all(h not in cfg.reachable_from(b, s_, stop={sb}) for s_ in info[3])
+            recv = T.canon(T.strip_refs(tm.operand(st["args"][0])))
+            elem = recv == T.canon(("f", ("as", info[0], "Some"), 0, None))
+            vals = {T.const_val(a) for a in T.alternatives(tm, tm.operand(st["args"][1]))}
+            sel = False
+            for bi2, si2, s2 in b.stmts():
+                if s2["k"] == "assign" and s2["rv"]["k"] == "use" and T.const_val(tm.rvalue(s2["rv"])) == (1 << 64) - 1:
+                    for s_, d_ in lib.controlling_edges(b, bi2):
+                        if T.canon(tm.operand(b.term(s_)["discr"])) == ("p", "v") and lib.bool_edge_polarity(b, s_, d_) is True:
+                            sel = True
+            good = uncond and elem and vals == {0, (1 << 64) - 1} and sel and T.canon(src) == ("f", ("p", "self"), "data")
+            detail = "store unconditional=%s element=%s values=%s true->ones=%s" % (uncond, elem, sorted(vals, key=str), sel)
+        else:
+            detail = why or "expected one store in the loop, found %d" % len(stores)
+    rep.check(good, rule, "Bitfield::fill", "for row in self.data: row.store(if v { MAX } else { 0 })",
+              "Bitfield::fill does not store the selected pattern into every row (%s): initialisation and recovery leave the previous "
+              "contents of the bitfield in place" % detail, b.span)
+    fn = "llfree::bitfield::Bitfield::set"
+    b = lib.need_body(prog, fn)
+    rep.saw(fn)
+    tm = T.Terms(b, prog)
+    ors = lib.find_calls(b, "llfree::atomic::Atom::fetch_or")
+    ands = lib.find_calls(b, "llfree::atomic::Atom::fetch_and")
+    good = False
+    detail = "expected one fetch_or and one fetch_and"
+    if len(ors) == 1 and len(ands) == 1:
+        mo, ma = tm.operand(ors[0][1]["args"][1]), tm.operand(ands[0][1]["args"][1])
+        compl = ma[0] == "un" and ma[1] == "Not" and T.canon(ma[2]) == T.canon(mo)
+        same_row = T.canon(tm.operand(ors[0][1]["args"][0])) == T.canon(tm.operand(ands[0][1]["args"][0]))
+
+        def pol(bi):
+            for s_, d_ in lib.controlling_edges(b, bi):
+                if T.canon(tm.operand(b.term(s_)["discr"])) == ("p", "v"):
+                    return lib.bool_edge_polarity(b, s_, d_)
+            return None
+        good = compl and same_row and pol(ors[0][0]) is True and pol(ands[0][0]) is False
+        detail = "complement=%s same row=%s or-on-true=%s and-on-false=%s" % (compl, same_row, pol(ors[0][0]), pol(ands[0][0]))
+        loops = loop_info(b)
+        if loops:
+            h, blocks, exits = loops[0]
+            ok, why = exits_only_by_exhaustion(b, tm, h, blocks, exits)
+            good = good and ok
+    rep.check(good, rule, "Bitfield::set", "v: fetch_or(mask), !v: fetch_and(!mask) on every row of the range",
+              "Bitfield::set does not apply mask / !mask as selected by v (%s)" % detail, b.span)
 
 
 def run(rep, programs):
